@@ -498,6 +498,61 @@ impl<T> Block for NoCopyFileSink<T>""")]),
             return Ok(BlockRet::WaitForStream(&self.dst, 1));
         }
 """, "")]),
+    dict(name="f22-reverted-signalsource-idle-again", prop="C09", expect="C09.R2:<signal_source::SignalSourceComplex as block::Block>::work:again",
+         edits=[E("src/signal_source.rs", """        let n = o.len();
+        if n == 0 {
+            return Ok(BlockRet::WaitForStream(&self.dst, 1));
+        }
+        for (to, from)""", """        let n = o.len();
+        for (to, from)""")]),
+    # mutations of REFACTORED shapes (an independently written behaviour-preserving refactor + a one-line break): the rules
+    # must keep their teeth on the refactored code, not merely fall silent on it
+    dict(name="m3r4+busy-arm-forgets-done", prop="C06", expect="C06.R1:<graph::Graph as graph::GraphRunner>::run:Again",
+         patch="/verif/neutral_seeded/m3-r4/patch.diff", edits=[],
+         post_edits=[E("src/graph.rs", """                    Activity::Busy => {
+                        done = false;
+                        all_idle = false;
+                    }""", """                    Activity::Busy => {
+                        all_idle = false;
+                    }""")]),
+    dict(name="m3r4+eof-classified-waiting", prop="C06", expect="C06.R2:<graph::Graph as graph::GraphRunner>::run:EOF",
+         patch="/verif/neutral_seeded/m3-r4/patch.diff", edits=[],
+         post_edits=[E("src/graph.rs", "        BlockRet::EOF => Activity::Finished,", "        BlockRet::EOF => Activity::Waiting,")]),
+    dict(name="m3r4+join-loop-break-on-err", prop="C07", expect="C07.R4:",
+         patch="/verif/neutral_seeded/m3-r4/patch.diff", edits=[],
+         post_edits=[E("src/mtgraph.rs", """                    if first_err.is_none() {
+                        first_err = Some(e);
+                    }""", """                    if first_err.is_none() {
+                        first_err = Some(e);
+                    }
+                    break;""")]),
+    dict(name="m8r4+marker-tags-on-every-piece", prop="C16", expect="C16.R3:",
+         patch="/verif/neutral_seeded/m8-r4/patch.diff", edits=[],
+         post_edits=[E("src/vector_source.rs", "            (0, pass) => vec![start(), repeat(pass)],", "            (_, pass) => vec![start(), repeat(pass)],")]),
+    dict(name="m5r4+header-word-not-consumed", prop="C14", expect="C14.R2:",
+         patch="/verif/neutral_seeded/m5-r4/patch.diff", edits=[],
+         post_edits=[E("src/au.rs", "    i.consume(4);\n    Some(word)", "    Some(word)")]),
+    dict(name="m7r4+consumable-not-a-multiple", prop="C08", expect="C08.R3:",
+         patch="/verif/neutral_seeded/m7-r4/patch.diff", edits=[],
+         post_edits=[E("src/fir.rs", "            Ok(self.deci * ((have - self.ntaps + 1) / self.deci))", "            Ok(have - self.ntaps + 1)")]),
+    dict(name="m2r4+never-without-closed", prop="C04", expect="C04.R",
+         patch="/verif/neutral_seeded/m2-r4/patch.diff", edits=[],
+         post_edits=[E("src/stream.rs", "            (true, true) => true,", "            (_, true) => true,")]),
+    dict(name="m1r4+assert-helper-checks-nothing", prop="C01", expect="C01.R1:circular_buffer::Buffer::produce:",
+         patch="/verif/neutral_seeded/m1-r4/patch.diff", edits=[],
+         post_edits=[E("src/circular_buffer.rs", """        assert!(
+            s.free() >= n,
+            "tried to produce {n}, but only {} is free out of {}",""", """        debug_assert!(
+            s.free() >= n,
+            "tried to produce {n}, but only {} is free out of {}","""),
+                     E("src/circular_buffer.rs", """        assert!(
+            s.write_capacity() >= n,
+            "can't produce that much. {} < {}",""", """        debug_assert!(
+            s.write_capacity() >= n,
+            "can't produce that much. {} < {}",""")]),
+    dict(name="m1r4+size-check-helper-always-ok", prop="C01", expect="C01.R2:",
+         patch="/verif/neutral_seeded/m1-r4/patch.diff", edits=[],
+         post_edits=[E("src/circular_buffer.rs", "    if member_size == 0 || size % member_size != 0 {", "    if member_size == 0 {")]),
     dict(name="sw-c16-tcpsource-closed-again", prop="C16", expect="C16.R8:<tcp_source::TcpSource as block::Block>::work:read()==0",
          edits=[E("src/tcp_source.rs", "            return Ok(BlockRet::EOF);", "            return Ok(BlockRet::Again);")]),
     dict(name="sw-c08-fill-deleted", prop="C08", expect="C08.R4:<file_source::FileSource as block::Block>::work:produce",
